@@ -181,6 +181,10 @@ var pomPropBases = []string{"1", "2", "10", "1.1", "21", "3.0", "12", "1.10", "2
 var pomComments = []string{"x", "managed versions", "TODO: bump", "see https://example.com/?a=1&b=2 <later>", "license: Apache 2.0", " spaced  out ", "${not.a.property}"}
 var pomPropNames = []string{"lib.version", "rev", "dep-x.version", "junitVersion", "v_1", "version.guava"}
 
+// type/classifier combinations of the variants of one artifact (the plain jar, its
+// test-jar, classifier variants)
+var pomVariantForms = [][2]string{{"test-jar", ""}, {"", "tests"}, {"", ""}, {"test-jar", "tests"}, {"", "sources"}, {"", "jdk8"}, {"jar", ""}, {"pom", ""}, {"war", ""}}
+
 type pomPropRec struct {
 	name    string
 	file    int
@@ -695,6 +699,70 @@ func genPomCase(t *rapid.T, col *ev.Collector) *pomCase {
 		}
 	}
 
+	// variants of one artifact: one or two more declarations with the same
+	// groupId:artifactId and another type and/or classifier (the jar and its test-jar, a
+	// classifier variant), in the same section as the first one or, for a dependency of the
+	// manifest, in its dependencyManagement; with the same version text (often a shared
+	// property) or a version of their own
+	variantNames := map[string]bool{}
+	if chance(t, "variants", 3, 8) {
+		type place struct {
+			list    *[]pomDep
+			file    int
+			profile string
+		}
+		if len(child.Deps) == 0 {
+			child.Deps = append(child.Deps, g.dep(0, ""))
+		}
+		places := []place{{&child.Deps, 0, ""}}
+		if len(child.Mgmt) > 0 {
+			places = append(places, place{&child.Mgmt, 0, ""})
+		}
+		for i := range child.Profiles {
+			p := &child.Profiles[i]
+			if len(p.Deps) > 0 {
+				places = append(places, place{&p.Deps, 0, p.ID})
+			}
+			if len(p.Mgmt) > 0 {
+				places = append(places, place{&p.Mgmt, 0, p.ID})
+			}
+		}
+		if g.hasPar && len(g.files[1].Mgmt) > 0 {
+			places = append(places, place{&g.files[1].Mgmt, 1, ""})
+		}
+		pl := places[0]
+		if chance(t, "variant_elsewhere", 1, 2) {
+			pl = places[rapid.IntRange(0, len(places)-1).Draw(t, "variant_place")]
+		}
+		d := (*pl.list)[rapid.IntRange(0, len(*pl.list)-1).Draw(t, "variant_of")]
+		used := map[string]bool{normType(d.Type) + "|" + d.Classifier: true}
+		nv := 1
+		if chance(t, "variant_third", 1, 5) {
+			nv = 2
+		}
+		for j := 0; j < nv; j++ {
+			var forms [][2]string
+			for _, f := range pomVariantForms {
+				if !used[normType(f[0])+"|"+f[1]] {
+					forms = append(forms, f)
+				}
+			}
+			f := rapid.SampledFrom(forms).Draw(t, "variant_form")
+			used[normType(f[0])+"|"+f[1]] = true
+			v := g.dep(pl.file, pl.profile)
+			v.G, v.A, v.Type, v.Classifier = d.G, d.A, f[0], f[1]
+			if rapid.Bool().Draw(t, "variant_same_version_text") {
+				v.Ver, v.VerCDATA = d.Ver, d.VerCDATA
+			}
+			if pl.list == &child.Deps && chance(t, "variant_in_mgmt", 1, 4) {
+				child.Mgmt = append(child.Mgmt, v)
+			} else {
+				*pl.list = append(*pl.list, v)
+			}
+		}
+		variantNames[d.G+":"+d.A] = true
+	}
+
 	// version-less declarations managed elsewhere: move the version of some child
 	// dependencies into a dependencyManagement entry (of the child or of one of its ancestors)
 	for i := range child.Deps {
@@ -725,6 +793,27 @@ func genPomCase(t *rapid.T, col *ev.Collector) *pomCase {
 			g.files[lv].Mgmt = append(g.files[lv].Mgmt, m)
 		} else {
 			child.Mgmt = append(child.Mgmt, m)
+		}
+	}
+
+	// the same in profiles: a version-less dependency of a profile, managed by the
+	// profile's own dependencyManagement or (default-active profiles, literal versions) by
+	// the manifest's
+	for i := range child.Profiles {
+		p := &child.Profiles[i]
+		for j := range p.Deps {
+			d := &p.Deps[j]
+			if d.Ver == "" || !chance(t, "profile_managed", 1, 5) {
+				continue
+			}
+			m := pomDep{G: d.G, A: d.A, Ver: d.Ver, Type: d.Type, Classifier: d.Classifier, VerCDATA: d.VerCDATA}
+			d.Ver, d.VerCDATA = "", false
+			if p.Active && !strings.Contains(m.Ver, "${") && rapid.Bool().Draw(t, "profile_managed_by_project") {
+				child.Mgmt = append(child.Mgmt, m)
+			} else {
+				p.HasMgmt = true
+				p.Mgmt = append(p.Mgmt, m)
+			}
 		}
 	}
 
@@ -870,20 +959,50 @@ func genPomCase(t *rapid.T, col *ev.Collector) *pomCase {
 		t.Fatalf("generator produced an untokenisable pom: %v", err)
 	}
 	seen := map[string]bool{}
+	byName := map[string]bool{}        // variants of this artifact are addressed by one update of the name
+	variantTo := map[string]string{} // the version requested for the variant addressed before
 	for _, s := range an.slots {
-		if s.verNode == nil || seen[s.name()] {
+		if s.verNode == nil {
 			continue
 		}
-		seen[s.name()] = true
+		// the variants of one artifact are addressed one by one (requirement keys), or now and
+		// then all together by one update of the name
+		isVar := variantNames[s.name()]
+		if isVar {
+			if _, drawn := byName[s.name()]; !drawn {
+				byName[s.name()] = chance(t, "variants_by_name", 1, 6)
+			}
+			isVar = !byName[s.name()]
+		}
+		key := s.name()
+		if isVar {
+			key += "|" + normType(s.typ) + "|" + s.classif
+		}
+		if seen[key] {
+			continue
+		}
+		seen[key] = true
 		if !s.visible && (strings.Contains(s.verLit, "${") || s.file >= 1) {
 			continue // the suggester never proposes these
 		}
-		if forced[s.name()] {
+		managed := an.managesVersionless(s)
+		switch {
+		case forced[s.name()]:
 			if !chance(t, "update_forced", 7, 8) {
 				continue
 			}
-		} else if !chance(t, "update", 1, 3) {
-			continue
+		case variantNames[s.name()]:
+			if !chance(t, "update_variant", 3, 4) {
+				continue
+			}
+		case managed:
+			if !chance(t, "update_managed", 2, 3) {
+				continue
+			}
+		default:
+			if !chance(t, "update", 1, 3) {
+				continue
+			}
 		}
 		cur, err := an.interp(s)
 		if err != nil {
@@ -898,14 +1017,38 @@ func genPomCase(t *rapid.T, col *ev.Collector) *pomCase {
 		if nv == cur {
 			nv = "99.0"
 		}
-		c.Updates = append(c.Updates, pomUpdate{Name: s.name(), To: nv})
+		u := pomUpdate{Name: s.name(), To: nv}
+		switch {
+		case isVar:
+			u.Variant, u.Type, u.Classifier = true, s.typ, s.classif
+			// often the version requested for the other variant
+			if prev, ok := variantTo[s.name()]; ok && prev != cur && rapid.Bool().Draw(t, "variant_same_target") {
+				u.To = prev
+			}
+			variantTo[s.name()] = u.To
+		case variantNames[s.name()]:
+			// one update for all variants: another version than any of them has now
+			for _, x := range an.slots {
+				if x.name() == s.name() && x.verNode != nil {
+					if xc, err := an.interp(x); err == nil && xc == u.To {
+						u.To = "99.0"
+					}
+				}
+			}
+		}
+		if managed && (isVar || !variantNames[s.name()]) {
+			// a version-less dependency and the entry that manages it: the update addresses
+			// both requirements, only the direct one, or only the dependencyManagement one
+			u.Only = rapid.SampledFrom([]string{"", "direct", "management", "direct"}).Draw(t, "update_twin")
+		}
+		c.Updates = append(c.Updates, u)
 	}
 	// honour the known findings: drop updates that fall in a listed class
 	for changed := true; changed; {
 		changed = false
 		for i, u := range c.Updates {
 			drop := ""
-			for _, cl := range pomUpdateClasses(an, c.Updates, u.Name) {
+			for _, cl := range pomUpdateClasses(an, c.Updates, u) {
 				if col != nil && col.IsKnown(cl) {
 					drop = cl
 					break
